@@ -82,6 +82,12 @@ func hasNativeRecv(fn *ssa.Function, args []Value) bool {
 
 func (e *Exec) callFunction(caller *frame, fn *ssa.Function, args []Value, env []Value) Value {
 	key := fnKey(fn)
+	if len(e.stubs) > 0 {
+		if st, ok := e.stubs[key]; ok {
+			e.res.noteIntrinsic("stub:" + key)
+			return e.callFrom(caller, st, args)
+		}
+	}
 	if in, ok := intrinsics[key]; ok {
 		e.res.noteIntrinsic(key)
 		return in(e, caller, fn, args)
